@@ -125,6 +125,9 @@ func propertiesFor(schema *spec.Schema, getRefFn SchemaFromRefFn) PropertyMap {
 		schema, _ = getRefFn(schema.Ref)
 	}
 	props := PropertyMap{}
+	if schema == nil {
+		return props
+	}
 
 	requiredProps := schema.Required
 	requiredMap := map[string]bool{}
